@@ -50,7 +50,6 @@ static std::string typeJson(const Type& t, const TupleDecl::Decl* decl) {
     for (const Type& it : *decl) { if (!f) o += ','; f = false; o += '"'; o += majorName(it.major()); o += '"'; }
   }
   o += "]";
-  if (t.major() == Type::COMPLEX) o += ",\"mod\":" + std::to_string((int)t.minor());
   return o + "}";
 }
 
@@ -106,7 +105,14 @@ static std::string valueJson(const Value& cv, int depth = 0) {
   case Type::COMPLEX: {
     Complex* c = v.complex();
     char b[64]; snprintf(b, sizeof b, "%p", c->instance());
-    return std::string("{\"t\":\"obj\",\"mod\":") + std::to_string((int)c->typeId()) + ",\"modn\":" + vj::q(c->typeIdName()) + ",\"h\":\"" + b + "\"}";
+    std::string nm = c->typeIdName();
+    if (nm == "vobj") {
+      /* the verification module's objects carry their identity as first field */
+      long id = *static_cast<long*>(c->instance());
+      extern long g_vobj_base_get();
+      return "{\"t\":\"obj\",\"id\":" + std::to_string(id - g_vobj_base_get()) + "}";
+    }
+    return std::string("{\"t\":\"obj\",\"mod\":") + std::to_string((int)c->typeId()) + ",\"modn\":" + vj::q(nm) + ",\"h\":\"" + b + "\"}";
   }
   default: return "{\"t\":\"other\"}";
   }
@@ -510,6 +516,59 @@ static std::string doStep(const vj::Val& st) {
   return o + "}";
 }
 
+// events of the verification module libbloc_vobj (if it is loaded in this process)
+#include <dlfcn.h>
+static long g_vobj_base = -1;
+long g_vobj_base_get() { return g_vobj_base < 0 ? 0 : g_vobj_base; }
+static std::string drainVobj() {
+  void* h = dlopen("libbloc_vobj.so.2.9", RTLD_NOLOAD | RTLD_LAZY);
+  if (!h) return "[]";
+  typedef const char* (*DR)();
+  DR dr = (DR)dlsym(h, "VOBJ_drain");
+  std::string out = "[";
+  if (dr) {
+    std::string all = dr();
+    size_t p = 0; bool first = true;
+    while (p < all.size()) {
+      size_t e = all.find('\n', p);
+      if (e == std::string::npos) e = all.size();
+      std::string line = all.substr(p, e - p);
+      p = e + 1;
+      if (line.empty()) continue;
+      /* renumber object identities relative to the scenario */
+      vj::Parser jp(line); vj::P ev = jp.parse();
+      long long id = ev->num("id", 0);
+      if (g_vobj_base < 0) g_vobj_base = id - 1;
+      std::string o = "{\"e\":" + vj::q(ev->str("e")) + ",\"id\":" + std::to_string(id - g_vobj_base);
+      if (ev->get("name")) o += ",\"name\":" + vj::q(ev->str("name"));
+      if (ev->get("tag")) o += ",\"tag\":" + std::to_string(ev->num("tag"));
+      if (ev->get("ctor")) o += ",\"ctor\":" + std::to_string(ev->num("ctor"));
+      if (ev->get("live")) o += std::string(",\"live\":") + (ev->boolean("live") ? "true" : "false");
+      if (ev->get("was_live")) o += std::string(",\"was_live\":") + (ev->boolean("was_live") ? "true" : "false");
+      if (const vj::Val* a = ev->get("args")) {
+        o += ",\"args\":[";
+        bool f2 = true;
+        for (auto& x : a->a) {
+          if (!f2) o += ','; f2 = false;
+          std::string t = x->str("t");
+          if (t == "int") o += "{\"t\":\"int\",\"v\":" + std::to_string(x->num("v")) + "}";
+          else if (t == "dec") o += "{\"t\":\"dec\",\"h\":" + std::to_string(x->num("h")) + "}";
+          else if (t == "str") o += "{\"t\":\"str\",\"v\":" + vj::q(x->str("v")) + "}";
+          else if (t == "bool") o += std::string("{\"t\":\"bool\",\"v\":") + (x->boolean("v") ? "true" : "false") + "}";
+          else if (t == "obj") o += "{\"t\":\"obj\",\"id\":" + std::to_string(x->num("id") - g_vobj_base) + "}";
+          else o += "{\"t\":" + vj::q(t) + "}";
+        }
+        o += "]";
+      }
+      o += "}";
+      if (!first) out += ','; first = false;
+      out += o;
+    }
+  }
+  dlclose(h);
+  return out + "]";
+}
+
 static void freeAll() {
   while (!g_ctx.empty()) freeCtx(g_ctx.begin()->first);
   /* process-wide registry: every scenario starts with no module loaded and nothing granted */
@@ -548,8 +607,17 @@ int main(int argc, char** argv) {
         std::string o = "{\"id\":" + std::to_string(id) + ",\"obs\":[";
         const vj::Val* steps = sc->get("steps");
         bool f = true;
-        if (steps) for (auto& st : steps->a) { if (!f) o += ','; f = false; o += doStep(*st); }
+        g_vobj_base = -1;
+        if (steps) for (auto& st : steps->a) {
+          if (!f) o += ','; f = false;
+          std::string so = doStep(*st);
+          so.insert(so.size() - 1, ",\"ev\":" + drainVobj());
+          o += so;
+        }
         o += "]";
+        /* contexts and programs are released, then the remaining module events are collected */
+        while (!g_ctx.empty()) freeCtx(g_ctx.begin()->first);
+        o += ",\"evend\":" + drainVobj();
         freeAll();
         alarm(0);
         int leaked = 0;
